@@ -503,6 +503,12 @@ type quiesceLine struct {
 	Panic     string  `json:"panic"`
 }
 
+// markers the harness pushes through the streams at quiescence (never part of the record)
+const sentinelID = "zz-marker"
+const sentinelStart = 5000
+
+var sentinelSeq int
+
 // setActiveStartBase marks start times handed to SetActiveMode in the concurrent part, so that the
 // stream check can tell them from the stamps of ChangeActiveMode.
 const setActiveStartBase = 900
@@ -562,11 +568,13 @@ func runConc() {
 
 		// collectors: fold the modes stream, remember the active stream
 		var mu sync.Mutex
+		arrived := sync.NewCond(&mu)
 		view := map[string]*traits.ElectricMode{}
 		var mlines []mstreamLine
 		var alines []aeventLine
 		var lastActive *traits.ElectricMode
 		prev := activeA{Start: -1}
+		afterSentinel := false
 		mk, ak := 0, 0
 		foldedNow := func() []modeA {
 			l := make([]*traits.ElectricMode, 0, len(view))
@@ -588,9 +596,12 @@ func runConc() {
 						evid = e.New.GetId()
 						view[e.New.GetId()] = e.New
 					}
-					mk++
-					mlines = append(mlines, mstreamLine{Kind: "mstream", Run: run, K: mk, Ev: e.Type, EvID: s.ids.seen(evid), Modes: foldedNow()})
+					if evid != sentinelID { // the harness's own marker (see drain) is not part of the record
+						mk++
+						mlines = append(mlines, mstreamLine{Kind: "mstream", Run: run, K: mk, Ev: e.Type, EvID: s.ids.seen(evid), Modes: foldedNow()})
+					}
 					mu.Unlock()
+					arrived.Broadcast()
 				case <-ctx.Done():
 					return
 				}
@@ -602,11 +613,20 @@ func runConc() {
 				case e := <-ac:
 					mu.Lock()
 					cur := absActive(e.Mode, s.ids.seen)
-					ak++
-					alines = append(alines, aeventLine{Kind: "aevent", Run: run, K: ak, Prev: prev, Cur: cur, Ct: absTime(e.Ct)})
-					prev = cur
 					lastActive = e.Mode
+					switch {
+					case cur.Start >= sentinelStart: // the harness's own marker (see drain)
+						afterSentinel = true
+					case afterSentinel: // the marker being taken back: the active mode as it was
+						afterSentinel = false
+						prev = cur
+					default:
+						ak++
+						alines = append(alines, aeventLine{Kind: "aevent", Run: run, K: ak, Prev: prev, Cur: cur, Ct: absTime(e.Ct)})
+						prev = cur
+					}
 					mu.Unlock()
+					arrived.Broadcast()
 				case <-ctx.Done():
 					return
 				}
@@ -652,19 +672,57 @@ func runConc() {
 			}
 			close(start)
 			wg.Wait()
-			// quiescence: nothing is writing; wait for the streams to catch up with the state
-			var st stateA
-			drained := false
-			deadline := time.Now().Add(3 * time.Second)
-			for {
-				st, _ = s.state("model", s.ids.seen)
+			// quiescence: nothing is writing.  Changes may still be on their way to the subscribers;
+			// the harness pushes a marker through each stream and waits for it, after which everything
+			// written before has arrived (or, on the server streams, been superseded).
+			st, _ := s.state("model", s.ids.seen)
+			waitFor := func(cond func() bool) bool {
+				timedOut := false
+				t := time.AfterFunc(10*time.Second, func() {
+					mu.Lock()
+					timedOut = true
+					mu.Unlock()
+					arrived.Broadcast()
+				})
+				defer t.Stop()
 				mu.Lock()
-				drained = modesEqual(foldedNow(), st.Modes) && lastActive != nil && proto.Equal(lastActive, s.m.ActiveMode())
-				mu.Unlock()
-				if drained || time.Now().After(deadline) {
-					break
+				defer mu.Unlock()
+				for !cond() && !timedOut {
+					arrived.Wait() // the collectors signal every delivery
 				}
-				time.Sleep(200 * time.Microsecond)
+				return cond()
+			}
+			drained := true
+			// modes: add a marker mode, see it arrive, take it away again, see it leave
+			if err := s.m.AddMode(&traits.ElectricMode{Id: sentinelID}); err != nil {
+				drained = false
+			} else {
+				drained = waitFor(func() bool { return view[sentinelID] != nil }) && drained
+				if err := s.m.DeleteMode(sentinelID); err != nil {
+					hx.Fatal("cannot remove the marker mode: %v", err)
+				}
+				drained = waitFor(func() bool { return view[sentinelID] == nil }) && drained
+			}
+			// active mode: set it to itself with a marker start time, see that arrive, put it back
+			if cur := s.m.ActiveMode(); cur.GetId() != "" {
+				if _, exists := s.m.FindMode(cur.GetId()); exists {
+					sentinelSeq++
+					marked := proto.Clone(cur).(*traits.ElectricMode)
+					marked.StartTime = timestamppb.New(concTime(sentinelStart + sentinelSeq))
+					if err := s.m.SetActiveMode(marked); err != nil {
+						hx.Fatal("cannot mark the active mode: %v", err)
+					}
+					drained = waitFor(func() bool { return proto.Equal(lastActive, marked) }) && drained
+					if err := s.m.SetActiveMode(cur); err != nil {
+						hx.Fatal("cannot restore the active mode: %v", err)
+					}
+					drained = waitFor(func() bool { return proto.Equal(lastActive, cur) && !afterSentinel }) && drained
+				}
+				// (an active mode that is not in the table cannot be set again: no marker; the state
+				// clause on the model's own state already fails there)
+			}
+			if after, _ := s.state("model", s.ids.seen); !modesEqual(after.Modes, st.Modes) || after.Active != st.Active {
+				hx.Fatal("the markers changed the state: %+v -> %+v", st, after)
 			}
 			mu.Lock()
 			for i := range mlines {
